@@ -393,31 +393,49 @@ func isNCName(s string) bool {
 }
 
 // onlyEncodes reports whether got is want with some bytes replaced by their own
-// %hh escape (hex case-insensitive) and nothing else changed.
+// %hh escape (hex case-insensitive) and nothing else changed. A literal '%' in
+// want may appear verbatim or as %25, which makes the match ambiguous; it is
+// resolved by backtracking.
 func onlyEncodes(want, got string) bool {
-	i, j := 0, 0
-	for i < len(want) {
-		if j >= len(got) {
-			return false
-		}
-		if got[j] == want[i] {
-			// a literal '%' in want may also appear as %25
-			i++
-			j++
-			continue
-		}
-		if got[j] == '%' && j+2 < len(got) {
-			h, ok1 := unhexb(got[j+1])
-			l, ok2 := unhexb(got[j+2])
-			if ok1 && ok2 && (h<<4|l) == want[i] {
-				i++
-				j += 3
-				continue
+	type pos struct{ i, j int }
+	dead := map[pos]bool{}
+	var rec func(i, j int) bool
+	rec = func(i, j int) bool {
+		for {
+			if i == len(want) {
+				return j == len(got)
+			}
+			if j >= len(got) {
+				return false
+			}
+			lit := got[j] == want[i]
+			esc := false
+			if got[j] == '%' && j+2 < len(got)+0 && j+2 <= len(got)-1 {
+				h, ok1 := unhexb(got[j+1])
+				l, ok2 := unhexb(got[j+2])
+				esc = ok1 && ok2 && (h<<4|l) == want[i]
+			}
+			switch {
+			case lit && esc:
+				p := pos{i, j}
+				if dead[p] {
+					return false
+				}
+				if rec(i+1, j+3) || rec(i+1, j+1) {
+					return true
+				}
+				dead[p] = true
+				return false
+			case esc:
+				i, j = i+1, j+3
+			case lit:
+				i, j = i+1, j+1
+			default:
+				return false
 			}
 		}
-		return false
 	}
-	return j == len(got)
+	return rec(0, 0)
 }
 
 func unhexb(c byte) (byte, bool) {
